@@ -282,4 +282,80 @@ theorem readTag_arrayA_exact (parent : Tag) (st : St) (P A : Name) (ws0 ws1 wsE 
 
 
 
+
+/-- what readTagHeader does once the start of the tag is found, when "/>" follows the name: a self-closing tag -/
+theorem readTagHeader_after_solo (parent : Tag) (st : St) (t : TagT) (buf : Bytes) (i : Nat) (NS name X R : Bytes)
+    (hf : findTagStart 16 128 0 st = (.ok (t, buf, i), st))
+    (hb : buf = NS ++ 58 :: (name ++ 47 :: 62 :: X))
+    (hns : ∀ x ∈ NS, (x == 58) = false) (hname : ∀ x ∈ name, isTerm x = false)
+    (hdrop : st.rest.drop (NS.length + 1 + name.length + 2 + i) = R) :
+    readTagHeader parent st = (.ok { t := .solo, parent := parent.self, self := identify NS name }, { st with a := false, rest := R }) := by
+  unfold readTagHeader
+  rw [bindOk _ _ _ _ _ hf]
+  simp only [hb, parseTagName_exact NS name (62 :: X) 47 hns hname (by decide)]
+  have e : (NS ++ 58 :: (name ++ 47 :: 62 :: X) : Bytes) = (NS ++ [58] ++ name) ++ 47 :: 62 :: X := by simp
+  have hl : (NS ++ [58] ++ name : Bytes).length = NS.length + 1 + name.length := by simp; omega
+  have hc : (NS ++ 58 :: (name ++ 47 :: 62 :: X) : Bytes)[NS.length + 1 + name.length]? = some 47 := by
+    rw [e, ← hl]; simp
+  have hc1 : (NS ++ 58 :: (name ++ 47 :: 62 :: X) : Bytes)[NS.length + 1 + name.length + 1]? = some 62 := by
+    rw [e, ← hl, List.getElem?_append_right (by omega)]; simp
+  rw [bindOk _ _ _ _ _ (at_ok _ _ 47 st hc)]
+  simp only [show ((47 : UInt8) == 62) = false by decide, show isWs 47 = false by decide, Bool.false_eq_true, if_false]
+  rw [bindOk _ _ _ _ _ (at_ok _ _ 62 st hc1)]
+  simp only [beq_self_eq_true, if_true]
+  show (setA false >>= fun _ => discard (NS.length + 1 + name.length + 2 + i) >>= fun _ => pure _) st = _
+  simp only [setA, discard, bind, pure, hdrop]
+
+/-- **Self-closing tag.** `<ns:name/>` -/
+theorem readTagHeader_solo_exact (parent : Tag) (st : St) (ws : Bytes) (n0 : UInt8) (ns name R : Bytes)
+    (hr : st.rest = ws ++ 60 :: ((n0 :: ns) ++ 58 :: (name ++ 47 :: 62 :: R)))
+    (hws : ∀ x ∈ ws, (x == 60) = false) (hwin : ws.length + 128 ≤ W)
+    (h0 : n0 ≠ 47 ∧ n0 ≠ 63) (hns : ∀ x ∈ n0 :: ns, (x == 58) = false) (hname : ∀ x ∈ name, isTerm x = false)
+    (hfit : ns.length + name.length + 5 ≤ 128) :
+    readTagHeader parent st = (.ok { t := .solo, parent := parent.self, self := identify (n0 :: ns) name }, { st with a := false, rest := R }) := by
+  have hr' : st.rest = ws ++ 60 :: n0 :: (ns ++ 58 :: (name ++ 47 :: 62 :: R)) := by rw [hr]; simp
+  have h4 : 4 < st.rest.length := by rw [hr]; simp; omega
+  obtain ⟨m, hm, hf⟩ := findTagStart_exact ws (ns ++ 58 :: (name ++ 47 :: 62 :: R)) n0 hws hwin 15 128 0 st hr' h4 (Nat.zero_le _) (by omega) (by unfold W at hwin; omega)
+  have hc1 : (n0 == 47) = false := by simp [h0.1]
+  have hc2 : (n0 == 63) = false := by simp [h0.2]
+  unfold tagStartResult at hf
+  rw [hc1, hc2] at hf
+  simp only [Bool.false_eq_true, if_false] at hf
+  have hL : st.rest.length = ws.length + 1 + ((n0 :: ns) ++ 58 :: (name ++ 47 :: 62 :: R)).length := by rw [hr]; simp; omega
+  have hAl : ((n0 :: ns) ++ 58 :: (name ++ [47, 62]) : Bytes).length = ns.length + name.length + 4 := by simp; omega
+  have hbuf : (st.rest.take m).drop (ws.length + 1) = (n0 :: ns) ++ 58 :: (name ++ 47 :: 62 :: (R.take (m - (ws.length + 1) - (ns.length + name.length + 4)))) := by
+    have e : st.rest = (ws ++ [60]) ++ ((n0 :: ns) ++ 58 :: (name ++ [47, 62])) ++ R := by rw [hr]; simp
+    have hmm : ws.length + 1 + (ns.length + name.length + 4) ≤ m := by
+      have : ws.length + 1 + (ns.length + name.length + 4) ≤ st.rest.length := by rw [hL]; simp; omega
+      omega
+    rw [e, take_drop_prefix _ R m (ws.length + 1) (by omega) (by rw [hAl]; omega) (ws ++ [60]) (by simp), hAl]
+    simp
+  rw [hbuf] at hf
+  refine readTagHeader_after_solo parent st .start _ (ws.length + 1) (n0 :: ns) name _ R hf rfl hns hname ?_
+  rw [hr]
+  have e : (ws ++ 60 :: ((n0 :: ns) ++ 58 :: (name ++ 47 :: 62 :: R)) : Bytes) = ((ws ++ [60]) ++ ((n0 :: ns) ++ 58 :: (name ++ [47, 62]))) ++ R := by simp
+  have hl : ((ws ++ [60]) ++ ((n0 :: ns) ++ 58 :: (name ++ [47, 62])) : Bytes).length = (n0 :: ns).length + 1 + name.length + 2 + (ws.length + 1) := by
+    simp; omega
+  rw [e, ← hl, List.drop_left]
+
+/-- a self-closing element without attributes (an empty array `<rdf:Bag/>`, an unknown empty property) is stepped over: one
+round of readTag, nothing reported -/
+theorem readTag_solo_exact (parent : Tag) (st : St) (ws : Bytes) (n : Name) (R : Bytes) (f : Nat)
+    (hr : st.rest = ws ++ 60 :: ((n.n0 :: n.ns) ++ 58 :: (n.name ++ 47 :: 62 :: R)))
+    (hws : ∀ x ∈ ws, (x == 60) = false) (hwin : ws.length + 128 ≤ W) (ok : n.OK) :
+    readTag (f + 1) parent st = readTag f parent { rest := R, a := false, toks := st.toks } := by
+  rw [readTag_unfold f parent]
+  rw [bindOk _ _ _ _ _ (readTagHeader_solo_exact parent st ws n.n0 n.ns n.name R hr hws hwin ok.h0 ok.hns ok.hname ok.hfit)]
+  have he1 : isEndTag { t := .solo, parent := parent.self, self := identify (n.n0 :: n.ns) n.name } parent.self = false := by
+    simp [isEndTag]
+  simp only [he1, Bool.false_eq_true, if_false]
+  rw [bindOk (fun st => (.ok st.rest.length, st) : M Nat) _ _ _ _ rfl]
+  rw [bindOk _ _ _ _ _ (attrLoop_noattr none _ _ _ rfl)]
+  have hts : ((TagT.solo == TagT.start) = true) = False := by simp
+  simp only [hts, if_false]
+  rw [bindOk (pure _) _ _ _ _ rfl]
+  have hrs : isRootStop { t := .solo, parent := parent.self, self := identify (n.n0 :: n.ns) n.name } = false := by
+    simp [isRootStop]
+  simp only [hrs, Bool.false_eq_true, if_false]
+
 end Imeta.Xmp
